@@ -141,6 +141,7 @@ def run(ctx):
     for le, be in zip(les, tobig):
         lines2.append("wire swap " + be)
         lines2.append("wire demarshal " + be)
+        lines2.append("wire reencode " + be)        # parsed and serialised again before anything has read it (and converted it to native order)
     ok2 = True
     parts, results = par(lines2)
     for idx, res in zip(parts, results):
@@ -153,12 +154,12 @@ def run(ctx):
             ok2 = False
             ctx.violate("other byte order: values read or bytes after conversion differ", {"op": op, "impl": impl, "model": model}, True)
     # swap must give back exactly the little-endian original
-    swapped, _ = script.run_model("\n".join(lines2[0::2]) + "\n")
+    swapped, _ = script.run_model("\n".join(lines2[0::3]) + "\n")
     for le, sw in zip(les, swapped):
         if le != sw:
             ok2 = False
             ctx.violate("model: converting to big-endian and back is not the identity (model defect)", {"le": le, "back": sw}, True)
-    ctx.oblige("correspondence K:wire/byteswap (big-endian image read back and converted to native)", "correspondence", ok2)
+    ctx.oblige("correspondence K:wire/byteswap (big-endian image read back, converted to native, and re-serialised untouched)", "correspondence", ok2)
     kinds = {}
     for p in progs:
         for o in p.split()[2:]:
